@@ -33,4 +33,11 @@ var props = []Prop{
 		Bounds:  "(a) subscribes()/listener copy/subscription bits: all triggers, masks, nil-ness and relation ids (complete); Dispatch: 3 sub-listeners with symbolic (S,C), three construction orders, one symbolic event",
 		Outside: "Dispatch with more than 3 sub-listeners",
 	},
+	{
+		ID: "C01",
+		Harnesses: []H{{Pkg: "ecs", Fn: "HC01_Step"}, {Pkg: "ecs", Fn: "HC01_Step", Tags: "tiny"}, {Pkg: "ecs", Fn: "HC01_Two", Tier: "thorough", Minutes: 60}},
+		Conform: []H{{Pkg: "ecs", Fn: "HSmoke"}, {Pkg: "ecs", Fn: "HConf_Prefixes"}, {Pkg: "ecs", Fn: "HConf_Prefixes", Tags: "tiny"}},
+		Bounds:  "8 scripted prefixes (fresh, two tables, mixed sizes incl. zero-sized, two relation parents, dead target, retired table, recycled ids depth 3, two relation types) x 1 symbolic operation out of 11 kinds with every legal argument choice (entity, add/remove subsets of 6 component types, target) x 3 configurations (quick) / 24 (thorough: 4 ID profiles x capacity increments 1..3 x relation increments 1..2); thorough adds all pairs of two operations on 2 profiles; payload words fully symbolic; at most 10 entities",
+		Outside: "histories longer than prefix+2 operations; more than 10 entities; component types other than the 6 of the universe; capacity increments > 3",
+	},
 }
